@@ -39,7 +39,7 @@ impl KindId {
             KindId::StrMb => "&str(multibyte)",
             KindId::Slice => "&[char]",
             KindId::Stream => "Stream",
-            KindId::BoxedStream => "BoxedStream",
+            KindId::BoxedStream => "BoxedStream(no size hint)",
             KindId::Mapped => "Input::map(contiguous)",
             KindId::MappedGapped => "Input::map(gapped)",
             KindId::U8 => "&[u8]",
